@@ -377,6 +377,8 @@ def enforce(A: spmatrix,
     start = Aout.indptr[D]
     stop = Aout.indptr[D + 1]
     count = stop - start
+    # rows without stored entries would break the index arithmetic below
+    start, count = start[count > 0], count[count > 0]
     idx = np.ones(count.sum(), dtype=np.int32)
     idx[np.cumsum(count)[:-1]] -= count[:-1]
     idx = np.repeat(start, count) + np.cumsum(idx) - 1
